@@ -16,6 +16,7 @@ EXPLANATION = (
     "branches as max), C07-R2 compares the left-to-right evaluation order of the holes with the "
     "Language Reference order of the statement kind, C07-R3 checks that the generic expression "
     "copier rebuilds every node from all its fields in _fields order."
+    ' C07-R4: no path drops a hole other paths of the statement evaluate; C07-R5: no converter-built and/or/not/if-else tests the truth of a lowered block; C07-R6: the truth of a user expression is asked at most once (a short-circuit result that is tested again); C11-R6 (shared): defaults printed by the own unparser are attached to the right parameters, each exactly once.'
 )
 ASSUMPTIONS = [
     "CPython evaluates the emitted expression forms in the documented order (Language Reference 6.16)",
